@@ -467,6 +467,11 @@ func (p *parser) InstantiateGenericFunction(genericFunc *ast.FuncDecl, genericTy
 
 	context := p.generateGenericContext(genericFunc.Generic.Context, parameters, genericTypes)
 
+	// the errors of an instantiation are returned to the caller, who reports or discards them;
+	// they must not leave the declaring module marked as faulty
+	declModFaulty := genericFunc.Mod.Ast.Faulty
+	defer func() { genericFunc.Mod.Ast.Faulty = declModFaulty }()
+
 	errorCollector := ddperror.Collector{}
 	declParser := &parser{
 		tokens:                genericFunc.Generic.Tokens,
